@@ -16,7 +16,7 @@ from __future__ import annotations
 import io
 import itertools
 import random
-from typing import Any, Dict, List, Tuple
+from typing import Any, Dict, List, Optional, Tuple
 
 from vf.common import StepBudgetExceeded, chash, last_steps, run_with_budget
 
@@ -50,8 +50,10 @@ SHARD_TIMEOUT = {"quick": 600, "thorough": 5400}
 
 def minimums(tier: str) -> Dict[str, int]:
     if tier == "quick":
-        return {"evaluations": 20000, "distinct": 15000, "seen:refill_states": 9, "tokens_compared": 50000}
-    return {"evaluations": 800000, "distinct": 700000, "seen:refill_states": 10, "tokens_compared": 1000000}
+        return {"evaluations": 20000, "distinct": 15000, "seen:refill_states": 9, "tokens_compared": 50000, "long_inputs": 150,
+                "seen:long_run_units": len(RUN_UNITS)}
+    return {"evaluations": 800000, "distinct": 700000, "seen:refill_states": 10, "tokens_compared": 1000000, "long_inputs": 900,
+            "seen:long_run_units": len(RUN_UNITS)}
 
 
 def shards(tier: str, seed: int) -> List[Dict[str, Any]]:
@@ -64,6 +66,11 @@ def shards(tier: str, seed: int) -> List[Dict[str, Any]]:
         for i in range(len(ALPHA16)):
             for j in range(0, len(ALPHA16), 4):
                 out.append({"kind": "exh5", "first": i, "second": [j, j + 1, j + 2, j + 3]})
+    ncomb = len(RUN_UNITS) * len(RUN_LENGTHS) * 4
+    nlong = 8 if tier == "quick" else 32
+    ids = [((seed * 7919) + k) % ncomb for k in range(ncomb)] if tier != "quick" else [((seed * 7919) + 5 * k) % ncomb for k in range(ncomb // 5 + 1)]
+    for k in range(nlong):
+        out.append({"kind": "long", "sub": k, "cases": ids[k::nlong]})
     nrand = 16 if tier == "quick" else 64
     per = 1300 if tier == "quick" else 6500
     for k in range(nrand):
@@ -143,15 +150,21 @@ def tokenize(data: bytes, bufsiz: int):
         return toks, ("exception:%s:%s" % (type(e).__name__, fn), repr(e))
 
 
-def check_string(data: bytes) -> List[Tuple[str, str]]:
+LONG_BUFSIZES = [61, 4096, 65536]
+
+
+def check_string(data: bytes, bufsizes: Optional[List[int]] = None) -> List[Tuple[str, str]]:
     """Run all monitors on one input; -> list of (key, detail)."""
     fails: List[Tuple[str, str]] = []
     ref = None
     ntok = 0
-    for bs in BUFSIZES:
+    if len(data) > 200:
+        short = lambda b: b[:60] + b"...(%d bytes)..." % len(b) + b[-40:]    # noqa: E731
+        fails_data = short(data)
+    for bs in (bufsizes or BUFSIZES):
         toks, err = tokenize(data, bs)
         if err is not None:
-            fails.append((err[0], "BUFSIZ=%d data=%r: %s" % (bs, data, err[1])))
+            fails.append((err[0], "BUFSIZ=%d data=%r: %s" % (bs, data if len(data) <= 200 else fails_data, str(err[1])[:300])))
             continue
         last = -1
         for pos, t in toks:
@@ -173,7 +186,8 @@ def check_string(data: bytes) -> List[Tuple[str, str]]:
                     break
             fails.append(
                 ("bufsize_dependence:" + kind,
-                 "data=%r BUFSIZ=%d -> %r but BUFSIZ=%d -> %r" % (data, ref[0], ref[1], bs, toks))
+                 "data=%r BUFSIZ=%d -> %r but BUFSIZ=%d -> %r" % (data, ref[0], ref[1], bs, toks) if len(data) <= 200 else
+                 "data=%r BUFSIZ=%d -> %d tokens but BUFSIZ=%d -> %d tokens" % (fails_data, ref[0], len(ref[1]), bs, len(toks)))
             )
         ntok += len(toks)
     check_string.tokens = ntok  # type: ignore[attr-defined]
@@ -218,9 +232,43 @@ def gen_random(rng: random.Random) -> bytes:
     return b"".join(parts)[:64]
 
 
+RUN_UNITS = [b"\x00", b" ", b"\n", b"\r", b"\r\n", b"\t", b"\x0c", b"1", b"a", b"(", b")", b"<", b">", b"[", b"]", b"/", b"#41", b"%",
+             b"\\", b"\\\n", b"<<", b">>", b"{", b"}", b"\\(", b"7.", b"-", b"\xff", b"()", b"<41>", b"/N ", b"1 ", b"% c\n"]
+RUN_LENGTHS = [1000, 1500, 3000, 4095, 4096, 4097, 9000]
+
+
+def gen_long(i: int, rng: random.Random) -> bytes:
+    """A long run of one unit between ordinary tokens, bare or inside a literal / hex string / array / comment: lengths
+    around and beyond the default buffer size and the interpreter's recursion limit."""
+    unit = RUN_UNITS[i % len(RUN_UNITS)]
+    n = RUN_LENGTHS[(i // len(RUN_UNITS)) % len(RUN_LENGTHS)]
+    run = unit * max(1, n // len(unit))
+    pre = rng.choice([b"", b"12 ", b"/Name ", b"(s) ", b"q\n"])[: rng.randint(0, 6)] if rng.random() < 0.5 else rng.choice([b"", b"12 ", b"/Name "])
+    post = rng.choice([b"", b" 3.5 Td", b"\n/F1 12 Tf", b" (end)", b" >> endobj"])
+    wrap = (i // (len(RUN_UNITS) * len(RUN_LENGTHS))) % 4
+    if wrap == 1:
+        run = b"(" + run + b")"
+    elif wrap == 2:
+        run = b"<" + run + b">"
+    elif wrap == 3:
+        run = b"[" + run + b"]"
+    return pre + run + post
+
+
 def run_shard(spec: Dict[str, Any], rec) -> None:
     kind = spec["kind"]
-    if kind == "exh":
+    if kind == "long":
+        rng = random.Random("C14long/%d/%d" % (spec["seed"], spec["sub"]))
+        for i in spec["cases"]:
+            data = gen_long(i, rng)
+            fails = check_string(data, LONG_BUFSIZES)
+            rec.case(chash(data), True)
+            rec.count("long_inputs")
+            rec.count("tokens_compared", check_string.tokens)  # type: ignore[attr-defined]
+            rec.see("long_run_units", RUN_UNITS[i % len(RUN_UNITS)])
+            for k, d in fails:
+                rec.fail(k, {"data": data, "long": True}, d)
+    elif kind == "exh":
         L = spec["L"]
         if spec["first"] < 0:
             _run_one(b"", rec)
@@ -244,4 +292,4 @@ def run_shard(spec: Dict[str, Any], rec) -> None:
 
 
 def replay(case: Dict[str, Any]) -> List[Tuple[str, str]]:
-    return check_string(case["data"])
+    return check_string(case["data"], LONG_BUFSIZES if case.get("long") else None)
